@@ -10,6 +10,7 @@ import (
 	"regexp"
 	"strings"
 	"unicode/utf8"
+	"unsafe"
 )
 
 // bltn type defines functions which run at CFG execution.
@@ -125,15 +126,20 @@ func isExecNode(n *node, exec bltn) bool {
 		return false
 	}
 
-	a1 := reflect.ValueOf(n.exec).Pointer()
-	a2 := reflect.ValueOf(exec).Pointer()
-	return a1 == a2
+	return execID(n.exec) == execID(exec)
+}
+
+// execID returns the identity of an exec closure. The code pointer obtained
+// through reflect is the same for all the closures created by a generator,
+// hence for all nodes of the same kind: use the address of the closure itself.
+func execID(exec bltn) uintptr {
+	return *(*uintptr)(unsafe.Pointer(&exec))
 }
 
 // originalExecNode looks in the tree of nodes for the node which has exec,
 // aside from n, in order to know where n "inherited" that exec from.
 func originalExecNode(n *node, exec bltn) *node {
-	execAddr := reflect.ValueOf(exec).Pointer()
+	execAddr := execID(exec)
 	var originalNode *node
 	seen := make(map[int64]struct{})
 	root := n
@@ -157,7 +163,7 @@ func originalExecNode(n *node, exec bltn) *node {
 			if wn.exec == nil {
 				return true
 			}
-			if reflect.ValueOf(wn.exec).Pointer() == execAddr {
+			if execID(wn.exec) == execAddr {
 				originalNode = wn
 				return false
 			}
@@ -3035,7 +3041,7 @@ func _range(n *node) {
 	if isString(an.typ.TypeOf()) {
 		n.child[0].exec = func(f *frame) bltn {
 			f.data[index2] = reflect.ValueOf(value(f).String()) // set a copy of the string for range
-			f.data[index3].SetInt(0)  // byte position of the first rune
+			f.data[index3].SetInt(0)                            // byte position of the first rune
 			return next
 		}
 		return
